@@ -12,12 +12,14 @@ type SynOpts struct {
 	MaxNT      int // 1..5
 	MaxTerms   int // 1..6
 	ErrorAlts  bool
-	Actions    bool   // decorate alternatives with recording actions
-	Stratum    int    // 0 = mixed, 1 = families, 2 = random, 3 = with junk NTs
-	ActPkg     string // import path of the action helper ("" = verif.local/h/act)
-	AllRec     bool   // every alternative gets a recording action
-	NoTokCast  bool   // never use $Tn
-	LongBodies bool   // dedicated stratum with bodies >= 11 symbols
+	Actions    bool     // decorate alternatives with recording actions
+	Stratum    int      // 0 = mixed, 1 = families, 2 = random, 3 = with junk NTs
+	ActPkg     string   // import path of the action helper ("" = verif.local/h/act)
+	AllRec     bool     // every alternative gets a recording action
+	NoTokCast  bool     // never use $Tn
+	LongBodies bool     // dedicated stratum with bodies >= 11 symbols
+	Terms      []gr.Sym // use exactly these terminals (nil: draw names)
+	NoEmpty    bool     // no alternative is the keyword empty
 }
 
 var ntNames = []string{"A", "B", "C", "D", "E", "F", "G", "H"}
@@ -150,6 +152,10 @@ func SynGrammar(o SynOpts) *rapid.Generator[*gr.Grammar] {
 		}
 		b := &synB{t: t, maxNT: o.MaxNT}
 		nT := rapid.IntRange(1, o.MaxTerms).Draw(t, "nTerms")
+		if len(o.Terms) > 0 {
+			b.terms = append(b.terms, o.Terms...)
+			nT = 0
+		}
 		for i := 0; i < nT; i++ {
 			if rapid.IntRange(0, 2).Draw(t, "termKind") == 0 {
 				l := rapid.SampledFrom(litNames).Draw(t, "litName")
@@ -217,6 +223,15 @@ func SynGrammar(o SynOpts) *rapid.Generator[*gr.Grammar] {
 				syms = append(syms, b.term())
 			}
 			b.prods[pi].Alts = append(b.prods[pi].Alts, gr.Alt_{Syms: syms})
+		}
+		if o.NoEmpty {
+			for i := range b.prods {
+				for j := range b.prods[i].Alts {
+					if b.prods[i].Alts[j].Empty {
+						b.prods[i].Alts[j] = gr.Alt_{Syms: []gr.Sym{b.term()}}
+					}
+				}
+			}
 		}
 		for i := range b.prods {
 			dedupeAlts(&b.prods[i])
